@@ -62,6 +62,32 @@ class Dispatch:
     def calls(self, arm):
         return [sir.call_name(n) for n in sir.walk(arm.body) if n.get("k") in ("call", "mcall") and sir.call_name(n)]
 
+    def calls_deep(self, arm, idx, depth=2):
+        """calls made by the arm, and by the private helpers it hands its work to (free functions of the crate that are not
+        themselves dispatch routines)"""
+        out = list(self.calls(arm))
+        seen = set()
+        frontier = list(out)
+        for _ in range(depth):
+            nxt = []
+            for nm in frontier:
+                for g in idx.fns:
+                    if g.name == nm and g.body and id(g) not in seen and not g.base and g is not self.fn and not _has_dispatch(g):
+                        seen.add(id(g))
+                        cs = [sir.call_name(n) for n in sir.walk(g.body) if n.get("k") in ("call", "mcall") and sir.call_name(n)]
+                        out += cs
+                        nxt += cs
+            frontier = nxt
+        return out
+
+
+def _has_dispatch(g):
+    """a function that owns a token dispatch loop of its own (parse_rules, the block converters) is a routine, not a helper"""
+    for n in sir.walk(g.body):
+        if n.get("k") == "match" and sum(1 for a in n["arms"] if "Token::" in sir.pat_str(a["pat"])) >= 4:
+            return True
+    return False
+
 
 def dispatches(idx):
     out = []
